@@ -81,8 +81,8 @@ const LOG_TARGET: &str = "litep2p::transport-manager";
 #[cfg(feature = "verif")]
 pub mod verif_addr {
     pub use super::{
-        address::{scores, AddressRecord, AddressStore},
-        handle::TransportManagerHandle,
+        address::{scores, verif_log::take_evicted, AddressRecord, AddressStore},
+        handle::{verif_log::take_add_order, TransportManagerHandle},
         types::SupportedTransport,
         TransportManager, TransportManagerBuilder,
     };
